@@ -250,4 +250,37 @@ theorem resInv_reachable {s : State} (h : Reachable s) : ResInv s := by
   | init cfg n w t => intro p hp; simp [init] at hp
   | step l _ hf ih => exact resInv_step ih (fire_step hf)
 
+/-! ## the exporter with its `obsQueue` front: given items and refused offers next to the LTS state
+
+`obs_queue.go` `Offer`: `numItems := req.ItemsCount()`; `err := Queue.Offer`; `if err != nil { enqueueFailed += numItems }`.
+A refused offer (queue full, context done, queue stopped …) does not change the state of the shutdown LTS; an accepted one is
+the LTS label `offer b`.  `XState` carries what the exporter was GIVEN and the items of the refused offers. -/
+
+inductive XReachable : XState → Prop
+  | init (cfg n w t) : XReachable { s := init cfg n w t }
+  | step {x x'} (l : XLabel) : XReachable x → xfire x l = some x' → XReachable x'
+
+theorem accepted_step {s s' : State} {l : Label} (hs : Step s l s') :
+    s'.accepted.length = s.accepted.length + (match l with | .offer b => b.length | _ => 0) := by
+  cases hs <;> simp [finalise, List.length_append]
+
+theorem xreachable_inv {x : XState} (h : XReachable x) : Reachable x.s ∧ x.given = x.s.accepted.length + x.refused := by
+  induction h with
+  | init cfg n w t => exact ⟨Reachable.init _ _ _ _, by simp [init]⟩
+  | step l _ hf ih =>
+    obtain ⟨hr, hg⟩ := ih
+    cases l with
+    | refuse b =>
+      simp only [xfire, Option.some.injEq] at hf; subst hf
+      exact ⟨hr, by simp only []; omega⟩
+    | lts l =>
+      simp only [xfire] at hf
+      split at hf
+      · next s' hs' =>
+        simp only [Option.some.injEq] at hf; subst hf
+        refine ⟨Reachable.step l hr hs', ?_⟩
+        have := accepted_step (fire_step hs')
+        cases l <;> simp only [] at this ⊢ <;> omega
+      · simp at hf
+
 end OtelVerif.C19
